@@ -336,6 +336,9 @@ def apply_model(sym, n, f, vals, mut_idx, st):
         return V(("fmtargs", (("txt", vals[0][2]),) if vals[0][0] == "lit" else (("dyn", vals[0]),), ()))
     if p == "std::fmt::format" and len(vals) == 1:
         return V(("format", vals[0]))
+    if p.startswith("lazy_static::lazy::Lazy") and last == "get" and len(vals) == 2 and vals[1][0] == "fnref":
+        # lazy_static: the static's value is the value its initialiser returns (run once; trusted base)
+        return sym.apply(vals[1], [], st, n)
     if p == "std::default::Default::default" and not vals:
         return V(default_of(n.get("ty")))
     return None
